@@ -190,7 +190,7 @@ def explore(which, tier, acc):
     bs = bases(tier, which)
     bs = common.rotate(bs, common.seed())
     depth_hist = {}
-    with ctx.Pool(common.NPROC) as pool:
+    with ctx.Pool(common.NPROC, initializer=common._worker_init) as pool:
         pending = []
 
         def flush(batch):
